@@ -2,9 +2,12 @@
   C04 — the enum parser is total: every input yields Ok or Err.
 
   Modelled: every Rust slice / index / unwrap of `impl_enum/parser.rs` as an operation that can return
-  `panic`, every loop with fuel. Proved so far (see DESIGN.md §6 for the remaining obligation
-  `eparse_total`): building an error never panics, the stand-alone punctuation / stamp parsers and
-  the integer reader are total, `transform_mid_result` never unwraps an empty slot.
+  `panic`, every loop and recursion with fuel. PROVED AT FULL STRENGTH (file `C04b.lean`, which imports
+  the totality development): for every input string — unbounded length and nesting — and every format
+  whose loop keywords are non-empty (all three shipped ones), every entry point returns `Ok` or `Err`:
+  no panic, and the fuel the entry points supply (linear in the input) is never exhausted, i.e. the
+  Rust loops terminate because every successful consume step advances the cursor.
+  This file holds the basic facts (error construction never panics, etc.).
 -/
 import NarseseModel.EParser
 set_option autoImplicit false
